@@ -291,16 +291,27 @@ func vpersist(st *stor.Stor, c *vchain, m vmodel, nk int) (uint64, vchain) {
 		merge := vnmerge(no, c.Clock)
 		keep := no - merge
 		rt.Assert("chain/clock", c2.Clock == c.Clock+1)
-		rt.Assert("chain/length", n2 == keep+1)
+		nlive := 0
+		for k := 0; k < nk; k++ {
+			if m.has[k] {
+				nlive++
+			}
+		}
+		emptied := n2 == 0 && keep == 0 && nlive == 0
+		if emptied {
+			// a full flatten with no live entry left: every old chunk is abandoned, the chain is empty
+			rt.Reach("flattened-to-empty")
+		}
+		rt.Assert("chain/length", emptied || n2 == keep+1)
 		if no >= 7 {
 			rt.Reach("flatten-at-maxchain")
-			rt.Assert("chain/flatten-at-maxchain", n2 == 1)
+			rt.Assert("chain/flatten-at-maxchain", emptied || n2 == 1)
 		}
 		pre := n2 == keep+1
 		for i := 0; pre && i < keep; i++ {
 			pre = c2.Offs[i] == offs0[i] && c2.Ages[i] == ages0[i]
 		}
-		rt.Assert("chain/kept-chunks", pre)
+		rt.Assert("chain/kept-chunks", pre || emptied)
 		if pre {
 			oldest := c.Clock
 			if merge > 0 {
